@@ -218,7 +218,7 @@ def do_call(poly, args, kwargs, spelling):
     import numpoly
 
     if spelling == "numpoly.call":
-        return numpoly.call(poly, tuple(args), dict(kwargs))
+        return numpoly.call(poly, tuple(args), kwargs)
     return poly(*args, **kwargs)
 
 
@@ -301,6 +301,22 @@ def run_case(case, ctx):
         if missing:
             facts["failure"] = "names"
             ctx.violation(facts, f"substituted polynomial lacks names {missing}", case)
+            return
+
+    # the function spelling must not use its kwargs dict as scratch space: a second
+    # call with the very same objects gives the same result
+    if case["spelling"] == "numpoly.call":
+        ctx.count("repeat_calls")
+        again, err2 = O.call_guard(numpoly.call, poly, tuple(args), kwargs)
+        ctx.evaluated(("repeat",) + sig, nontrivial)
+        if err2 is not None:
+            O.report_exception(ctx, dict(facts, rider="repeat"), err2, case,
+                               what="second numpoly.call with the same args/kwargs objects")
+            return
+        problem = O.mismatch(again, expected, rtol=rtol)
+        if problem is not None:
+            ctx.violation(dict(facts, rider="repeat", failure="repeat:" + problem[0]),
+                          f"second numpoly.call with the same kwargs dict differs: {problem[1]}", case)
             return
 
     # metamorphic riders on the same execution -------------------------------
